@@ -2,7 +2,7 @@
    Model: Model/GF8.v (GF(2^8) mod 0x11D; klauspost/reedsolomon with WithPAR1Matrix: Encode, Reconstruct,
    Verify) and Model/Par1.v (Create, the decoder, Verify, Repair) over Model/FS.v. *)
 From Gopar Require Import Model.Base Model.Matrix Model.RS16 Model.GF8 Model.CRC Model.GoPath Model.FS Model.Par1
-     Proofs.LinAlg Proofs.GoPathFacts Proofs.Par2Facts Proofs.GF8Facts Proofs.Par1Facts Proofs.Par1Clean Proofs.Par1RoundTrip Proofs.Par1Volumes.
+     Proofs.LinAlg Proofs.GoPathFacts Proofs.Par2Facts Proofs.GF8Facts Proofs.Par1Facts Proofs.Par1Clean Proofs.Par1RoundTrip Proofs.Par1Volumes Proofs.Par1RoundTrip2.
 Open Scope N_scope.
 
 (* Reconstruct, for EVERY file count, volume count, content and EVERY subset of surviving data files and
@@ -139,3 +139,31 @@ Theorem C04_unparsable_volume_ignored : forall md5 ix k fs fs' b x,
   fst (p1_load md5 ix (io_init fs' [])) = fst (p1_load md5 ix (io_init fs [])).
 Proof. exact p1_load_ignores_unparsable_volume. Qed.
 Print Assumptions C04_unparsable_volume_ignored.
+
+(* THE REPAIR CLAUSE OF THE PROPERTY IN FULL: Create, then lose ANY protected files AND ANY parity volumes such
+   that the lost files do not outnumber the volumes that remain loadable; Repair then returns success - every
+   file byte for byte, exactly the lost files listed - or the singular-combination error with NOTHING written
+   (inhabited: 3 files, volume 3 of 4 lost, all files lost - Example par1_singular_instance); nothing else.
+   With more files lost than volumes remain the result is the not-enough error (par1_create_lose_too_many). *)
+Theorem C04_create_lose_files_and_volumes : forall md5, (forall x, length (md5 x) = 16%nat) ->
+  forall parPath files nvol fs st' lost lostv dbl r rp st3,
+  par1_create md5 parPath files nvol (io_init fs []) = (Ok tt, st') ->
+  let nv := if (nvol <=? 0)%Z then 3%nat else Z.to_nat nvol in
+  Forall (fun f => input_name_ok (base f)) files ->
+  Forall (fun f => join2 (dir parPath) (base f) = f) files ->
+  (forall f d, In f files -> fs_lookup fs f = Some d -> N.of_nat (length d) < 2^64 /\ wf_bytes d) ->
+  Forall (fun f => f <> parPath /\ forall k, (1 <= k <= nv)%nat -> f <> volume_path parPath (N.of_nat k)) files ->
+  (forall k, (nv < k <= Nat.min (256 - length files) 99)%nat ->
+     fs_lookup fs (volume_path parPath (N.of_nat k)) = None /\ is_dir fs (volume_path parPath (N.of_nat k)) = false) ->
+  incl lost files ->
+  NoDup lostv -> (forall k, In k lostv -> (1 <= k <= Nat.min nv 99)%nat) ->
+  (length lost <= Nat.min nv 99 - length lostv)%nat ->
+  let gone := lost ++ map (fun k => volume_path parPath (N.of_nat k)) lostv in
+  (forall f, In f gone -> is_dir (io_fs st') f = false) ->
+  par1_repair md5 parPath dbl (io_init (fs_remove gone (io_fs st')) []) = ((r, rp), st3) ->
+  (r = Ok tt /\
+   (forall f d, In f files -> fs_lookup fs f = Some d -> fs_lookup (io_fs st3) f = Some d) /\
+   rp = filter (fun f => existsb (str_eqb f) lost) files)
+  \/ (r = Err ESingular /\ io_fs st3 = fs_remove gone (io_fs st') /\ rp = []).
+Proof. exact par1_create_lose_files_and_volumes. Qed.
+Print Assumptions C04_create_lose_files_and_volumes.
